@@ -743,6 +743,8 @@ pub fn run_inloop(case: &InCase) -> CaseOutcome {
                 calloop::timer::TimeoutAction::Drop
             })
             .expect("insert rescue timer");
+        // (whatever wake-up an earlier call left unconsumed is taken by a non-blocking dispatch first)
+        let _ = el.dispatch(Some(Duration::ZERO), &mut ());
         signal.wakeup();
         let r = el.dispatch(None, &mut ());
         handle.remove(rescue);
